@@ -8,7 +8,7 @@
     Known class 1 (C17-F1): the only differences are scans that did not report
     the lock of a key that has no write record yet. *)
 From Coq Require Export List NArith Bool String.
-From NoKV Require Export Base.Bytes Model.Percolator Model.KvApply Spec.PercoSpec Corr.Common.
+From NoKV Require Export Base.Bytes Model.Percolator Model.KvApply Model.PercolatorFault Spec.PercoSpec Corr.Common.
 Export ListNotations.
 (* string literals of the cases files (hex) are read in [string_scope]; exported on purpose *)
 Open Scope string_scope.
@@ -30,7 +30,15 @@ Record racecase := {
   r_a : request; r_oa : obs; r_b : request; r_ob : obs;
   r_locks : list (option lockrec);          (* reader.GetLock of every key after both finished *)
   r_tail : list step }.
-Inductive case := CSeq (c : seqcase) | CRace (c : racecase).
+(** A *fault* case: every request runs with a hot-key write limit (0 = none), so DB writes inside a
+    protocol step can be refused and leave a prefix of the step's writes.  Per step and key the
+    harness also reports, for the transaction under test, [reader.GetWriteByStartTs] (kind and
+    commit ts) and [reader.GetValue] at its commit version. *)
+Record fstep := {
+  fs_limit : N; fs_req : request; fs_obs : obs; fs_locks : list (option lockrec);
+  fs_status : list (option (op * N) * option bytes) }.
+Record faultcase := { f_keys : list bytes; f_start : N; f_commit : N; f_steps : list fstep }.
+Inductive case := CSeq (c : seqcase) | CRace (c : racecase) | CFault (c : faultcase).
 
 (** ** decidable equalities *)
 Definition option_eqb {A} (f : A -> A -> bool) (a b : option A) : bool :=
@@ -61,6 +69,7 @@ Definition key_error_eqb (a b : key_error) : bool :=
       bytes_eqb k k' && bytes_eqb p p' && (a1 =? b1) && (a2 =? b2) && (a3 =? b3)
   | KEAbort x, KEAbort y => abort_eqb x y
   | KECommitTsExpired k c m, KECommitTsExpired k' c' m' => bytes_eqb k k' && (c =? c') && (m =? m')
+  | KERetryable, KERetryable => true
   | _, _ => false
   end.
 Definition action_eqb (a b : action) : bool :=
@@ -146,6 +155,44 @@ Definition lock_reappeared (c : racecase) : bool :=
                      (combine (r_keys c) (r_locks c)))
           (commit_acked (r_a c) (r_oa c) ++ commit_acked (r_b c) (r_ob c))%list.
 
+(** the fault-aware model against the observation *)
+Definition status_eqb (a b : option (op * N) * option bytes) : bool :=
+  option_eqb (fun x y => op_eqb (fst x) (fst y) && (snd x =? snd y)) (fst a) (fst b) &&
+  option_eqb bytes_eqb (snd a) (snd b).
+Definition model_status (s : store) (start cv : N) (k : bytes) : option (op * N) * option bytes :=
+  (match get_write_by_start_ts s k start with Some (w, ct) => Some (w_kind w, ct) | None => None end,
+   get_value current s k cv).
+Fixpoint fault_model_ok (keys : list bytes) (start cv : N) (fs : fstore) (sts : list fstep) : bool :=
+  match sts with
+  | [] => true
+  | st :: sts' =>
+      let '(fs1, p) := apply_req_f (fs_limit st) fs (fs_req st) in
+      obs_is (fs_obs st) p && locks_eqb (map (get_lock (f_s fs1)) keys) (fs_locks st) &&
+      list_eqb status_eqb (map (model_status (f_s fs1) start cv) keys) (fs_status st) &&
+      fault_model_ok keys start cv fs1 sts'
+  end.
+
+(** history-only oracle (C18, finality under faults): once a key shows the transaction committed
+    (a non-rollback record), every later observation shows the same record and, for a put, the
+    value it had at its commit version; once it shows a rollback record it keeps showing it *)
+Fixpoint final_ok (prev : list (option (op * N) * option bytes)) (sts : list fstep) : bool :=
+  match sts with
+  | [] => true
+  | st :: sts' =>
+      forallb (fun '(p, q) =>
+                 match fst p with
+                 | None => true
+                 | Some (kind, ts) =>
+                     option_eqb (fun x y => op_eqb (fst x) (fst y) && (snd x =? snd y)) (Some (kind, ts)) (fst q) &&
+                     match kind with
+                     | OpPut => option_eqb bytes_eqb (snd p) (snd q) && match snd q with Some _ => true | None => false end
+                     | _ => true
+                     end
+                 end)
+              (combine prev (fs_status st)) &&
+      final_ok (fs_status st) sts'
+  end.
+
 Definition check_gen (strict : bool) (c : case) : verdict :=
   match c with
   | CSeq c =>
@@ -156,6 +203,10 @@ Definition check_gen (strict : bool) (c : case) : verdict :=
   | CRace c =>
       let m := negb (existsb (model_ok current (r_keys c) empty_store) (race_orders c)) in
       let v := negb (existsb (spec_ok false (r_keys c) lempty) (race_orders c)) || lock_reappeared c in
+      mk_verdict m v 0
+  | CFault c =>
+      let m := negb (fault_model_ok (f_keys c) (f_start c) (f_commit c) fempty (f_steps c)) in
+      let v := negb (final_ok (map (fun _ => (None, None)) (f_keys c)) (f_steps c)) in
       mk_verdict m v 0
   end.
 
@@ -186,6 +237,12 @@ Definition AScan (kvs : list (string * string)) (e : option key_error) :=
 Definition St (r : request) (o : obs) (ls : list (option lockrec)) : step :=
   {| st_req := r; st_obs := o; st_locks := ls; st_check_locks := true |}.
 Definition Cs (ks : list string) (sts : list step) : case := CSeq {| c_keys := map B ks; c_steps := sts |}.
+Definition Fs (limit : N) (r : request) (o : obs) (ls : list (option lockrec))
+           (stt : list (option (op * N) * option string)) : fstep :=
+  {| fs_limit := limit; fs_req := r; fs_obs := o; fs_locks := ls;
+     fs_status := map (fun '(w, v) => (w, option_map B v)) stt |}.
+Definition Fc (ks : list string) (start cv : N) (sts : list fstep) : case :=
+  CFault {| f_keys := map B ks; f_start := start; f_commit := cv; f_steps := sts |}.
 Definition Rc (ks : list string) (setup : list step) (a : request) (oa : obs) (b : request) (ob : obs)
            (ls : list (option lockrec)) (tail : list step) : case :=
   CRace {| r_keys := map B ks; r_setup := setup; r_a := a; r_oa := oa; r_b := b; r_ob := ob;
